@@ -7,7 +7,8 @@
 // The application side drains the result with one of the consumers and reports the rows it got and
 // the final error. Op line:
 //
-//	sess v<2..5> <consumer> <prefetch> <pagesize> <q|x|xs> <first> <script>
+//	sess v<2..5>[n<nodes>] <consumer> <prefetch> <pagesize> <q|x|xs|xd> <first> <script>
+//	  n<nodes>  2..3 nodes share the script (follow-up pages go to other hosts; PREPAREs are then not logged)
 //	  consumer  scan | scanner | mapscan | slicemap | manual (PageState loop, auto paging disabled)
 //	  q         unprepared (QUERY)   x  prepared, NoSkipMetadata (EXECUTE)   xs  prepared, skip-metadata
 //	            xd  prepared, cfg.DisableSkipMetadata
@@ -30,6 +31,7 @@ import (
 	"strconv"
 	"strings"
 	"sync"
+	"sync/atomic"
 	"time"
 
 	"github.com/gocql/gocql"
@@ -48,6 +50,7 @@ type reply struct {
 type scen struct {
 	op       string // sess | sessx
 	ver      int
+	nodes    int // 1..3 scripted nodes sharing the script (round-robin host selection)
 	consumer string
 	prefetch string
 	pageSize int
@@ -97,7 +100,11 @@ func (s scen) String() string {
 	for i, r := range s.script {
 		sc[i] = r.String()
 	}
-	return fmt.Sprintf("%s v%d %s %s %d %s %s %s", s.op, s.ver, s.consumer, s.prefetch, s.pageSize, s.kind, showState(s.first), strings.Join(sc, ";"))
+	v := fmt.Sprintf("v%d", s.ver)
+	if s.nodes > 1 {
+		v += fmt.Sprintf("n%d", s.nodes)
+	}
+	return fmt.Sprintf("%s %s %s %s %d %s %s %s", s.op, v, s.consumer, s.prefetch, s.pageSize, s.kind, showState(s.first), strings.Join(sc, ";"))
 }
 
 func parseScen(op string) scen {
@@ -106,7 +113,15 @@ func parseScen(op string) scen {
 		panic("bad sess op")
 	}
 	s := scen{op: w[0], consumer: w[2], prefetch: w[3], kind: w[5], first: parseState(w[6])}
-	s.ver, _ = strconv.Atoi(strings.TrimPrefix(w[1], "v"))
+	vn := strings.SplitN(strings.TrimPrefix(w[1], "v"), "n", 2)
+	s.ver, _ = strconv.Atoi(vn[0])
+	s.nodes = 1
+	if len(vn) == 2 {
+		s.nodes, _ = strconv.Atoi(vn[1])
+	}
+	if s.ver < 2 || s.ver > 5 || s.nodes < 1 || s.nodes > 8 {
+		panic("bad version/nodes")
+	}
 	s.pageSize, _ = strconv.Atoi(w[4])
 	for _, p := range strings.Split(w[7], ";") {
 		var r reply
@@ -186,8 +201,11 @@ func runSess(sc scen) (answer string, spurious bool) {
 			answer = fmt.Sprintf("crash:%v", r)
 		}
 	}()
-	cl := memcluster.NewCluster(sc.ver, "10.0.0.1")
-	node := cl.Nodes["10.0.0.1"]
+	var ips []string
+	for i := 1; i <= sc.nodes; i++ {
+		ips = append(ips, fmt.Sprintf("10.0.0.%d", i))
+	}
+	cl := memcluster.NewCluster(sc.ver, ips...)
 	var mu sync.Mutex
 	var reqs []seen
 	var log []string
@@ -195,11 +213,14 @@ func runSess(sc scen) (answer string, spurious bool) {
 	ctx, cancel := context.WithCancel(context.Background())
 	defer cancel()
 	cols := []memcluster.Col{{Name: "v", Type: memcluster.TInt}}
-	node.Handle = func(req *memcluster.Request) {
+	handle := func(req *memcluster.Request) {
 		switch req.Op {
 		case memcluster.OpPrepare:
 			mu.Lock()
-			log = append(log, "P")
+			if sc.nodes == 1 {
+				// with several nodes WHICH node still needs a PREPARE depends on the host selection order: not logged
+				log = append(log, "P")
+			}
 			mu.Unlock()
 			req.Conn.Reply(req.Stream, memcluster.OpResult, memcluster.PreparedBody(sc.ver, preparedID,
 				[]memcluster.Col{{Name: "id", Type: memcluster.TInt}}, []int{0}, cols))
@@ -271,7 +292,10 @@ func runSess(sc scen) (answer string, spurious bool) {
 			req.Conn.Reply(req.Stream, memcluster.OpResult, memcluster.VoidBody())
 		}
 	}
-	cfg := sess.Config(cl, sc.ver, "10.0.0.1")
+	for _, n := range cl.Nodes {
+		n.Handle = handle
+	}
+	cfg := sess.Config(cl, sc.ver, ips...)
 	cfg.Timeout = 20 * time.Second
 	for _, r := range sc.script {
 		if r.fail == "t" {
@@ -291,7 +315,7 @@ func runSess(sc scen) (answer string, spurious bool) {
 	if sc.prefetch == "0.5" {
 		s.SetPrefetch(0.5)
 	}
-	if !sess.WaitConns(s, 1, 10*time.Second) {
+	if !sess.WaitConns(s, sc.nodes, 10*time.Second) {
 		return "fatal:no connection", false
 	}
 	pf, err := strconv.ParseFloat(sc.prefetch, 64)
@@ -418,6 +442,8 @@ func runSess(sc scen) (answer string, spurious bool) {
 	return fmt.Sprintf("rows=%s err=%s reqs=%s", rows, ec, l), false
 }
 
+var spuriousReruns int64
+
 func execSess(op string) string {
 	sc := parseScen(op)
 	for try := 0; ; try++ {
@@ -425,6 +451,7 @@ func execSess(op string) string {
 		if !spurious || try >= 3 {
 			return a
 		}
+		atomic.AddInt64(&spuriousReruns, 1)
 	}
 }
 
@@ -505,7 +532,11 @@ func (g *sgen) failure() reply {
 }
 
 func (g *sgen) base() scen {
-	sc := scen{op: "sess", ver: 2 + g.r.Intn(4), consumer: consumersS[g.r.Intn(len(consumersS))],
+	nodes := 1
+	if g.r.Intn(5) == 0 {
+		nodes = 2 + g.r.Intn(2)
+	}
+	sc := scen{op: "sess", ver: 2 + g.r.Intn(4), nodes: nodes, consumer: consumersS[g.r.Intn(len(consumersS))],
 		prefetch: prefetches[g.r.Intn(len(prefetches))], pageSize: pageSizes[g.r.Intn(len(pageSizes))], kind: kinds[g.r.Intn(len(kinds))]}
 	return sc
 }
@@ -637,10 +668,10 @@ func scenClass(sc scen) string {
 	} else if empties > 0 {
 		e = "empty"
 	}
-	return fmt.Sprintf("%s/%s/v%d/%s/%s/%s", sc.op, sc.consumer, sc.ver, sc.kind, term, e)
+	return fmt.Sprintf("%s/%s/v%d/n%d/%s/%s/%s", sc.op, sc.consumer, sc.ver, sc.nodes, sc.kind, term, e)
 }
 
-func sessionTier(r *vh.Rng, out *vh.Out, tier string) {
+func sessionTier(r *vh.Rng, out *vh.Out, tier string) map[string]interface{} {
 	g := &sgen{r: r}
 	type job struct {
 		sc  scen
@@ -673,4 +704,5 @@ func sessionTier(r *vh.Rng, out *vh.Out, tier string) {
 	for i, j := range jobs {
 		out.Case(j.sc.String(), res[i], j.cls, true)
 	}
+	return map[string]interface{}{"session_scenarios": len(jobs), "spurious_timeout_reruns": atomic.LoadInt64(&spuriousReruns)}
 }
